@@ -149,6 +149,10 @@ Theorem C13_wait_safe_outside : forall xs, gap_free (w0 false) xs -> lost (srun 
 Proof. exact wait_safe_outside. Qed.
 Theorem C13_wait_fixed_safe : forall xs, lost (srun xs (w0 true)) = false.
 Proof. exact wait_fixed_safe. Qed.
+(* ... with any number of tasks waiting at once (sends from several tasks on a peerless socket): none of them is left
+   asleep next to a connected peer, for every interleaving (notify_waiters wakes every existing Notified future) *)
+Theorem C13_wait_all_waiters_safe : forall n xs i, (i < n)%nat -> mlost (mrun xs (mw0 n)) i = false.
+Proof. exact wait_all_waiters_safe. Qed.
 Theorem C13_wait_proceeds : forall s seen, J s -> w_fixed s = false -> w_pc s = PAwait seen ->
   peers (w_bal s) <> [] -> w_pc (srun [SW; SW] s) = PDone (negb (w_deact s)).
 Proof. exact wait_proceeds. Qed.
